@@ -90,6 +90,20 @@ def ladders(seed: int) -> list:
     return out
 
 
+def dense4() -> list:
+    """Four fixed 5-6 gate circuits in which every pair of 4 qubits
+    interacts: on a line or a star they need several swaps, so the routing
+    permutation is (for some of them) not an involution -- the only inputs
+    on which `pi` and `pi^-1` differ."""
+    orders = [
+        [[0, 1], [0, 2], [0, 3], [1, 2], [1, 3], [2, 3]],
+        [[0, 1], [2, 3], [0, 2], [1, 3], [0, 3], [1, 2]],
+        [[0, 3], [1, 2], [0, 2], [1, 3], [0, 1]],
+        [[0, 2], [1, 3], [0, 3], [1, 2], [0, 1], [2, 3]],
+    ]
+    return [[['CNOT', p] for p in o] for o in orders]
+
+
 def enumerate_cases(ctx: Ctx) -> list:
     A = alphabets(ctx.seed)
     M = K.model_spec
@@ -121,6 +135,10 @@ def enumerate_cases(ctx: Ctx) -> list:
                             else K.circuit_spec(n, ops)
                         cases.append(mk(inp, model, lvl, mss, eps))
 
+    star4 = M(4, K.STAR4, K.GS_DEFAULT, name='star4')
+    add(4, dense4(), [line4, star4], [1] if ctx.quick else [1, 2])
+    add(4, [K.circuit_spec(4, d, measure=[3, 0]) for d in dense4()[:2]],
+        [line4], [1])
     if ctx.quick:
         noccx = [a for a in A[3] if a[0] != 'CCX']
         w3 = seqs(noccx, 2)
@@ -141,6 +159,10 @@ def enumerate_cases(ctx: Ctx) -> list:
         add(2, variants(2, [A[2][2], A[2][0]]), [line3], [1])
         add(3, seqs(const_alpha, 1), [line3c], [1])
         add(3, seqs(noccx, 1), [line4], [1], msss=(2,))
+        # the one level-3 case of the quick tier (2 qubits, ~2 s): a
+        # near-identity entangling block, see the thorough tier
+        add(2, [[['CNOT', [0, 1]], ['RZ', [1], [0.1]], ['CNOT', [0, 1]]]],
+            [m2], [2, 3])
     else:
         noccx = [a for a in A[3] if a[0] != 'CCX']
         w3_2 = seqs(A[3], 2, max_ccx=1)
@@ -178,6 +200,12 @@ def enumerate_cases(ctx: Ctx) -> list:
         add(3, [[A[3][3], A[3][5]], [A[3][0], A[3][3]], [A[3][2], A[3][4]]],
             [line4], [4])
         add(2, seqs(A[2], 1), [line3], [3, 4])
+        # near-identity entangling blocks exp(-i t/2 ZZ): a resynthesis that
+        # accepts anything within 1e-2 would drop the CNOTs (cost 1-cos(t/2))
+        for t in (0.1, 0.01):
+            zz = [['CNOT', [0, 1]], ['RZ', [1], [t]], ['CNOT', [0, 1]]]
+            add(2, [zz], [m2], [1, 2, 3, 4])
+            add(3, [zz + [['CNOT', [1, 2]]]], [line3], [1, 2, 3])
         # the budget is proportional to synthesis_epsilon: a looser epsilon
         add(3, seqs(noccx, 1) + [[A[3][6]]], [line4], [1, 2], eps=1e-5)
         add(3, seqs(noccx, 2), [all3zx], [1], eps=1e-5)
@@ -296,7 +324,25 @@ def run(ctx: Ctx) -> None:
     }
     for c in cases[:: max(1, len(cases) // 5)][:6]:
         ctx.sample(D.short(c))
-    D.explore(ctx, cases, judge, 100 if ctx.quick else 2400, rule=RULE)
+    done = D.explore(ctx, cases, judge, 100 if ctx.quick else 2400,
+                     rule=RULE)
+    # how often the oracle had something to get wrong
+    stats = {'non_identity_mappings': 0, 'pi_differs_from_pf': 0,
+             'non_involutive_routing_permutation': 0, 'measured_and_moved': 0}
+    for case, rec in done.values():
+        if rec['status'] != 'ok' or not rec.get('maps_ok'):
+            continue
+        pi, pf = rec['pi'], rec['pf']
+        if pi != list(range(len(pi))) or pf != pi:
+            stats['non_identity_mappings'] += 1
+        if pi != pf:
+            stats['pi_differs_from_pf'] += 1
+            sig = dict(zip(pi, pf))
+            if any(sig.get(sig[a], a) != a for a in sig):
+                stats['non_involutive_routing_permutation'] += 1
+            if case['input'].get('measure') is not None:
+                stats['measured_and_moved'] += 1
+    ctx.part('mapping_coverage', **stats)
 
 
 def replay(ctx: Ctx, obj: dict) -> bool:
